@@ -688,6 +688,11 @@ func (i *Interpreter) ExecuteRoute(route *Route, request *Request) (*Response, e
 				},
 			}, err
 		}
+	} else {
+		// A body that ends without `>` has no result. The value of its last
+		// statement is not one: `$ secret = "s3cr3t"` as the last line must
+		// not answer with the secret (the compiled route answers null).
+		result = nil
 	}
 
 	// SSE routes stream events via yield — no body is returned.
